@@ -82,12 +82,11 @@ func checkStructure(m *model, c Case, step int) error {
 	return nil
 }
 
-func execC08Rib(c Case) (res evid.Result) {
-	defer func() {
-		if r := recover(); r != nil {
-			res.Err = fmt.Errorf("panic: %v", r)
-		}
-	}()
+func execC08Rib(t *testing.T) func(Case) evid.Result {
+	return func(c Case) evid.Result { return bubble(t, func() evid.Result { return runC08Rib(c) }) }
+}
+
+func runC08Rib(c Case) (res evid.Result) {
 	setup(c)
 	m := newModel()
 	chain := false
@@ -99,6 +98,7 @@ func execC08Rib(c Case) (res evid.Result) {
 			chain = true
 		}
 		applyOp(op)
+		m.reconcile()
 		i++
 		return checkStructure(m, c, i-1)
 	}
@@ -132,9 +132,9 @@ const ruleC08Rib = "the C06 histories; after every op the RIB node count and the
 
 func TestC08Rib(t *testing.T) {
 	rec := evid.New("C08", "TestC08Rib", ruleC08Rib)
-	evid.Check(t, rec, genCase, execC08Rib)
+	evid.Check(t, rec, genCase, execC08Rib(t))
 }
 
-func TestC08RibReplay(t *testing.T) { evid.Replay(t, "TestC08Rib", execC08Rib) }
+func TestC08RibReplay(t *testing.T) { evid.Replay(t, "TestC08Rib", execC08Rib(t)) }
 
-func TestC08RibRegress(t *testing.T) { evid.Regress(t, "C08", "TestC08Rib", execC08Rib) }
+func TestC08RibRegress(t *testing.T) { evid.Regress(t, "C08", "TestC08Rib", execC08Rib(t)) }
